@@ -418,7 +418,9 @@ def run_cache2d(spec, rec, dadi, DFE):
             if ok:
                 rec.close("cache2d-point-pos", relerr(np.asarray(fs.data if hasattr(fs, "data") else fs), ref), 1e-9, site="Cache2D.integrate_point_pos", tags=dict(tags, rho=rho))
                 rec.close("mixture-weights", abs(ppp + ppn + pnp + pnn - 1), 1e-12, site="Cache2D.integrate_point_pos", tags=tags)
-        if name == "biv_lognormal" and len(params) == 3:
+        if name == "biv_lognormal":
+            # the symmetric point mass takes its correlation from the LAST parameter of the continuous pdf, in the 3- and the
+            # 5-parameter form alike
             rho = params[-1]
             pp, gp = float(rng.uniform(0.05, 0.4)), 5.0
             ok, fs = rec.noraise("integrate_point_pos-returns", lambda: c2.integrate_symmetric_point_pos(list(params) + [pp, gp], None, pdf, theta),
@@ -427,6 +429,9 @@ def run_cache2d(spec, rec, dadi, DFE):
                                    site="Cache2D.integrate_point_pos", tags=tags)
             if ok and ok2:
                 rec.close("cache2d-point-pos", relerr(np.asarray(fs), np.asarray(fs2)), 1e-12, site="Cache2D.integrate_symmetric_point_pos", tags=tags)
+        if name == "biv_lognormal" and len(params) == 3:
+            rho = params[-1]
+            pp, gp = float(rng.uniform(0.05, 0.4)), 5.0
             # mixtures of the 1-D (perfectly correlated) and 2-D components with their stated weights
             ok, c1 = rec.noraise("cache-returns", lambda: DFE.Cache1D((), (2, 2), synth2_single, [10, 20, 30], gamma_bounds=bounds, gamma_pts=gpts, additional_gammas=[5.0, 12.0], cpus=1),
                                  site="DFE.Cache1D", tags=tags)
